@@ -194,6 +194,18 @@ impl Calendar {
     }
 }
 
+/// No calendar year further than this from zero corresponds to an ISO date inside the
+/// representable range (the largest is about 284 000 AH); the calendrical code is not meant
+/// for, and overflows on, years near the `i32` limits.
+const MAX_CALENDAR_YEAR: u32 = 500_000;
+
+fn check_calendar_year(year: i32) -> TemporalResult<()> {
+    if year.unsigned_abs() > MAX_CALENDAR_YEAR {
+        return Err(TemporalError::range().with_message("Year is outside the representable range."));
+    }
+    Ok(())
+}
+
 impl FromStr for Calendar {
     type Err = TemporalError;
 
@@ -236,6 +248,7 @@ impl Calendar {
             );
         }
 
+        check_calendar_year(resolved_fields.era_year.year)?;
         let calendar_date = self
             .0
             .date_from_codes(
@@ -298,6 +311,7 @@ impl Calendar {
         }
 
         // NOTE: This might preemptively throw as `ICU4X` does not support regulating.
+        check_calendar_year(resolved_fields.era_year.year)?;
         let calendar_date = self
             .0
             .date_from_codes(
